@@ -82,7 +82,13 @@ func (e *Exec) inlineFunc(callee *FuncInfo, call *ast.CallExpr, st *State, ctx *
 	e.callSites = append(e.callSites, call.Pos())
 	depth := e.inlineDepth
 	sites := len(e.callSites)
+	savedGhosts := map[string]string{}
+	for n, v := range st.ghosts {
+		savedGhosts[n] = v
+	}
 	fr.ret = func(st2 *State, vals []string) {
+		// the loop ghosts of the inlined body are out of scope again
+		restoreGhosts(savedGhosts, func(*State) {})(st2)
 		// run the caller's continuation with the caller's inlining context
 		sd, ss := e.inlineDepth, e.callSites
 		e.inlineDepth = depth - 1
